@@ -1213,6 +1213,17 @@ func (it *Interp) binop(at ast.Node, op token.Token, a, b Value) Value {
 	if _, u := b.(*Unknown); u {
 		return &Unknown{"operation on unknown"}
 	}
+	if op == token.EQL || op == token.NEQ {
+		// struct values compare field by field (pointers to structs by identity)
+		if be, ok := at.(*ast.BinaryExpr); ok {
+			if tv, ok := it.info.Types[be.X]; ok && tv.Type != nil {
+				if _, isStruct := tv.Type.Underlying().(*types.Struct); isStruct {
+					eq := it.structEqual(a, b)
+					return eq == (op == token.EQL)
+				}
+			}
+		}
+	}
 	switch op {
 	case token.EQL:
 		return valuesEqual(a, b)
@@ -1888,4 +1899,33 @@ func (it *Interp) sparseMembers(x *ast.RangeStmt, env *Env, n int64) ([]rune, bo
 		}
 	}
 	return out, true
+}
+
+func (it *Interp) structEqual(a, b Value) bool {
+	x, ok1 := a.(*Obj)
+	y, ok2 := b.(*Obj)
+	if !ok1 || !ok2 || x == nil || y == nil {
+		return valuesEqual(a, b)
+	}
+	if x == y {
+		return true
+	}
+	if len(x.fields) != len(y.fields) {
+		return false
+	}
+	for i := range x.fields {
+		fa, fb := x.fields[i].v, y.fields[i].v
+		if x.st != nil {
+			if _, isStruct := x.st.Field(i).Type().Underlying().(*types.Struct); isStruct {
+				if !it.structEqual(fa, fb) {
+					return false
+				}
+				continue
+			}
+		}
+		if !valuesEqual(fa, fb) {
+			return false
+		}
+	}
+	return true
 }
